@@ -281,6 +281,30 @@ Proof.
   - revert E. vm_compute. intros E; injection E; intros <-. cbn. eauto.
 Qed.
 
+(** H-live cannot be dropped either.  The repository's configuration with a heartbeat that
+    may be late by interval + 1 s (a holder that is alive but not scheduled: SIGSTOP, a
+    paused VM, a long stall): nobody is killed, no waiter gives up on an empty file, the
+    holder's heartbeat is merely late - and 10 s + 1 ns after the creation the waiter judges
+    the file stale, removes it and holds the lock together with the first holder.
+    Reproduced on the real code by the scenario [suspended-holder] (known finding). *)
+Definition d_late : Z := lock_freshness_interval * (lock_stale_factor - 1) + 1000000000.
+Definition late_run : list label :=
+  [LStart 0 0; LTryCreate 0; LWriteMeta 0; LStart 1 1; LTryCreate 1; LOpenRead 1;
+   LTick (lock_stale_factor * lock_freshness_interval + 1); LWake 1; LTryCreate 1; LOpenRead 1;
+   LRemove 1; LTryCreate 1; LWriteMeta 1]%nat.
+Theorem C08_mutex_refuted_late_heartbeat :
+  ~ H_live d_late /\
+  exists s i1 i2, reach (cfg_repo d_late) (live_ok (cfg_repo d_late)) init s /\
+    cs s 0%nat = CHolding i1 /\ cs s 1%nat = CHolding i2 /\ i1 <> i2.
+Proof.
+  split; [unfold H_live, d_late, lock_stale_factor, lock_freshness_interval; lia|].
+  destruct (reach_run (cfg_repo d_late) (live_okb (cfg_repo d_late)) init late_run) as [s|] eqn:E; [|vm_compute in E; discriminate].
+  exists s, 0%nat, 1%nat. split.
+  - apply (reach_run_sound _ _ _ (live_okb_sound (cfg_repo d_late)) late_run init init s); [constructor | exact E].
+  - revert E. vm_compute. intros E; injection E; intros <-. cbn. repeat split; auto; discriminate.
+Qed.
+Print Assumptions C08_mutex_refuted_late_heartbeat.
+
 (** ... and the waiter's process may be killed in such a run: the run stays within
     [live_ok] (the kill hits no owner) and thread 0 still holds *)
 Example C08_live_run_with_waiter_kill :
